@@ -8,6 +8,7 @@ import (
 	"path/filepath"
 	"sort"
 	"strings"
+	"syscall"
 
 	"verif/core"
 	"verif/engine"
@@ -399,7 +400,7 @@ func faultsFor(evs []simfs.Event, u C01Unit, rng *rand.Rand) []simfs.Fault {
 		a := e.Addr()
 		errnos := simfs.ErrnosFor(e.Op)
 		if !u.AllErrnos {
-			errnos = errnos[:1]
+			errnos = []syscall.Errno{simfs.ErrnoAt(e.Op, e.Seq)}
 		}
 		for _, en := range errnos {
 			ff = append(ff, simfs.Fault{Addr: a, Kind: simfs.KErr, Errno: int(en), Seq: e.Seq})
@@ -554,7 +555,7 @@ func (c01) RunUnit(raw core.Unit, tier string, seed int64) core.UnitResult {
 			continue
 		}
 		e2 := after[rng.IntN(len(after))]
-		f2 := simfs.Fault{Addr: e2.Addr(), Kind: simfs.KErr, Errno: int(simfs.ErrnosFor(e2.Op)[0]), Seq: e2.Seq}
+		f2 := simfs.Fault{Addr: e2.Addr(), Kind: simfs.KErr, Errno: int(simfs.ErrnoAt(e2.Op, e2.Seq)), Seq: e2.Seq}
 		if f2.Addr == f1.Addr {
 			continue
 		}
